@@ -732,6 +732,15 @@ impl Xot {
     /// # Ok::<(), xot::Error>(())
     /// ```
     pub fn deduplicate_namespaces(&mut self, node: Node) {
+        // Removing a declaration can make another one redundant (for
+        // instance an xmlns="" below a default namespace declaration that
+        // turned out to be superfluous), so repeat until nothing is left to
+        // remove. Each pass removes at least one declaration.
+        while self.deduplicate_namespaces_pass(node) {}
+    }
+
+    // returns whether anything was removed
+    fn deduplicate_namespaces_pass(&mut self, node: Node) -> bool {
         let mut fullname_serializer = FullnameSerializer::new(self, vec![]);
         let mut fixup_nodes = Vec::new();
         let mut deduplicate_tracker = DeduplicateTracker::new();
@@ -816,12 +825,16 @@ impl Xot {
                 fixup_prefixes.push((node, prefixes_to_remove.collect::<Vec<_>>()));
             }
         }
+        let mut removed = false;
         for (node, prefix) in fixup_prefixes {
             let mut namespaces = self.namespaces_mut(node);
             for prefix in prefix {
-                namespaces.remove(prefix);
+                if namespaces.remove(prefix).is_some() {
+                    removed = true;
+                }
             }
         }
+        removed
     }
 
     pub(crate) fn prefixes_in_scope(&self, node: Node) -> Prefixes {
